@@ -6,7 +6,8 @@ Line-protocol driver for C04. Requests (all ints after the op):
                                         `ok K {c r v n {ns {o z}*ns nd {o z cnt}*nd h}*n}*K` | `err <kind>`
 * `calcs z c r hmax N {k {o z}*k}*N` → for each of the N bond lists: `h|-1` and the bitmask of
                                         `check_implicit(h')` for `h' = 0..hmax`, as `h:mask`
-* `mol <wire molecule>`              → `calc h..|cv ids..|fixcv ids..|q charge|rad 0/1|brutto sym n ..|mass pico`
+* `implicify <wire>` / `explicify <wire>` → `ok <wire of the result> H <total hydrogens|-1>` | `lib:ValenceError` | `E:KeyError`
+* `mol <wire molecule>`              → `calc h..|chk (0,1,-1)..|cv ids..|fixcv ids..|q charge|rad 0/1|brutto sym n ..|mass pico`
 -/
 open ChythonModel.Model ChythonModel.Model.Valence ChythonModel.Py ChythonModel.Gen
 
@@ -54,6 +55,10 @@ def handleMol (xs : List Int) : String :=
   | none => "bad-mol"
   | some (m, _) =>
     let calcS := " ".intercalate (m.ids.map fun n => showOptOpt (calcImplicitMol m n))
+    let chk := " ".intercalate (m.atoms.map fun (p : Nat × Atom) => match p.2.implH with
+      | none => "-1"
+      | some h => match checkImplicitMol m p.1 h with
+        | none => "E" | some true => "1" | some false => "0")
     let cv := showNats (checkValence m)
     let fixcv := match fixStructure m with
       | none => "E"
@@ -66,7 +71,12 @@ def handleMol (xs : List Int) : String :=
     let mass := match molecularMassPico m with
       | .error e => "E:" ++ showErr e
       | .ok v => toString v
-    s!"calc {calcS}|cv {cv}|fixcv {fixcv}|q {q}|rad {rad}|brutto {br}|mass {mass}"
+    s!"calc {calcS}|chk {chk}|cv {cv}|fixcv {fixcv}|q {q}|rad {rad}|brutto {br}|mass {mass}"
+
+def showOp : Except OpErr Mol → String
+  | .ok m => "ok " ++ m.render ++ " H " ++ showOptNat (totalHydrogens m)
+  | .error .valenceError => "lib:ValenceError"
+  | .error .keyError => "E:KeyError"
 
 def handle (line : String) : String :=
   match words line with
@@ -91,6 +101,14 @@ def handle (line : String) : String :=
   | "mol" :: ws =>
     match parseInts? ws with
     | some xs => handleMol xs
+    | none => "bad-request"
+  | "implicify" :: ws =>
+    match (parseInts? ws).bind Mol.parse with
+    | some (m, _) => showOp (implicify m)
+    | none => "bad-request"
+  | "explicify" :: ws =>
+    match (parseInts? ws).bind Mol.parse with
+    | some (m, _) => showOp (explicify m)
     | none => "bad-request"
   | _ => "bad-request"
 
